@@ -47,6 +47,34 @@ func Instrument(filename string, src []byte, nextID *int, points map[int]string)
 			})
 		}
 	}
+	// time.Sleep(d) -> vfSleep(d): virtual time in the engine, an announced blocking point for the native controller
+	usesTime := false
+	ast.Inspect(f, func(n ast.Node) bool {
+		if ce, ok := n.(*ast.CallExpr); ok {
+			if se, ok := ce.Fun.(*ast.SelectorExpr); ok {
+				if id, ok := se.X.(*ast.Ident); ok && id.Name == "time" && se.Sel.Name == "Sleep" {
+					ce.Fun = ast.NewIdent("vfSleep")
+				}
+			}
+		}
+		return true
+	})
+	ast.Inspect(f, func(n ast.Node) bool {
+		if se, ok := n.(*ast.SelectorExpr); ok {
+			if id, ok := se.X.(*ast.Ident); ok && id.Name == "time" {
+				usesTime = true
+			}
+		}
+		return true
+	})
+	if !usesTime {
+		// keep the import used
+		for _, imp := range f.Imports {
+			if imp.Path.Value == `"time"` && imp.Name == nil {
+				imp.Name = ast.NewIdent("_")
+			}
+		}
+	}
 	var buf bytes.Buffer
 	// comments are dropped on purpose: inserted nodes have no positions and the printer would misplace them
 	f.Comments = nil
